@@ -201,6 +201,12 @@ def write_evidence(pid, mod, tier, seed, merged, wall, violations, known_seen, e
         "inconclusive": merged["inconclusive"],
         "notes": merged["notes"],
     }
+    try:
+        from vmon import srcdict
+
+        cov["source_literal_dictionary"] = srcdict.summary()  # what the generators took from the tree under test (vmon/srcdict.py)
+    except Exception as e:  # noqa: BLE001
+        cov["source_literal_dictionary"] = {"unavailable": repr(e)}
     cov.update(extra)
     ev = {
         "property_id": pid,
